@@ -683,3 +683,29 @@ def run_ctor_pairs(prog, rep):
     if n < 8:
         raise AnalysisBroken('R-CTORPAIR: only %d container members with two constructors' % n)
     return rule
+
+
+def run_getattr(prog, rep):
+    """LocID::getAttr<T> answers 'absent' exactly when the attribute does not exist; otherwise it reads the whole attribute"""
+    from ..absint import GenericInterp
+    rule = rep.rule('R-GETATTR', 'LocID::getAttr reports false only for an absent attribute and otherwise opens, sizes and reads it (no further condition - stored width, shape, content - makes an existing attribute read as absent)', floor=3)
+    fs = sorted([f for f in prog.funcs.values() if f.name == 'getAttr' and (f.cls or '') == 'nix::hdf5::LocID' and f.body is not None], key=lambda f: f.sig)
+    if len(fs) < 3:
+        raise AnalysisBroken('R-GETATTR: only %d instantiations of LocID::getAttr found' % len(fs))
+    for f in fs:
+        it = GenericInterp(prog, watch=lambda n: (n.callee or {}).get('name') in ('read', 'openAttr', 'resize'))
+        probs = []
+        for assign, out, log, fields in it.enumerate(f, this='THIS', args=[('name',), ('value',)]):
+            if out[0] != 'ret':
+                continue
+            has = assign.get(('bool', 'hasAttr', 'THIS', ('name',)))
+            other = [k for k in assign if k != ('bool', 'hasAttr', 'THIS', ('name',))]
+            nm = [l[0] for l in log]
+            if out[1] is False and (has is not False or other):
+                probs.append('answers "absent" for an attribute that exists (decided by %s)' % ([repr(k)[:70] for k in other] or 'nothing'))
+            if out[1] is True and nm != ['openAttr', 'resize', 'read']:
+                probs.append('reports success after %s instead of openAttr, resize, read' % nm)
+            if out[1] not in (True, False):
+                probs.append('returns %r' % (out[1],))
+        rule.check(not probs, 'LocID::getAttr%s' % f.sig[:60], rep.where(f), f.label(), 'false iff !hasAttr(name); otherwise open, size, read', '; '.join(sorted(set(probs))))
+    return rule
